@@ -103,7 +103,7 @@ def run_tlc(family, module, cfg, *, workers=8, timeout_s=600, cases_path=None, s
         for f in extra_files:
             shutil.copy(f, os.path.join(d, os.path.basename(f)))
         meta = os.path.join(d, "meta")
-        cmd = ["java", "-XX:+UseParallelGC", "-Xss256m"]
+        cmd = ["java", "-XX:+UseParallelGC", "-Xss256m", "-Xmx" + os.environ.get("VERIF_TLC_HEAP", "8g")]
         if dfs:
             cmd.append("-Dtlc2.tool.queue.IStateQueue=StateDeque")
         cmd += list(java_opts)
